@@ -128,15 +128,15 @@ theorem safe_bind (n : N) :
     | send hi hw hk' =>
       exact SafeAct.send hi hw (fun s' hs' => ih s' k (hk' s' hs') hk)
 
-/-- A node all of whose wires lead to attacker-side nodes is safe whatever it does (class `K` trivial). -/
-theorem safe_of_interior (n : N) (hK : ∀ m r g, K m r g) (hI : ∀ s, I n s)
+/-- A node all of whose wires lead to attacker-side nodes is safe whatever it does (class `K` holds of whatever\ntravels over its wires). -/
+theorem safe_of_interior (n : N) (hK : ∀ q m r g, sys.wire n q = some (m, r) → K m r g) (hI : ∀ s, I n s)
     (hw : ∀ q m r, sys.wire n q = some (m, r) → side m = true) :
     ∀ a : Act S Port F, SafeAct sys side K I n a := by
   intro a
   induction a with
   | done s => exact SafeAct.done (hI s)
   | send s q g k ih =>
-    exact SafeAct.send (hI s) (fun m r h => ⟨hw q m r h, hK m r g⟩) (fun s' _ => ih s')
+    exact SafeAct.send (hI s) (fun m r h => ⟨hw q m r h, hK q m r g h⟩) (fun s' _ => ih s')
 
 /-- A script that only writes `P`-states stays so under the interface-send layer. -/
 theorem pres_guard (P : S → Prop) (en : S → Port → Bool) :
@@ -165,7 +165,7 @@ theorem pres_bind (P : S → Prop) :
 
 /-- **Disabled interfaces are inert on the send side.** A node whose scripts go through the interface-send
 layer and only write states in which every port that leaves the attacker side is disabled, is safe. -/
-theorem safe_of_guard (n : N) (en : S → Port → Bool) (hK : ∀ m r g, K m r g)
+theorem safe_of_guard (n : N) (en : S → Port → Bool) (hK : ∀ q m r g, sys.wire n q = some (m, r) → K m r g)
     (hw : ∀ s q m r, I n s → en s q = true → sys.wire n q = some (m, r) → side m = true) :
     ∀ a : Act S Port F, Pres (I n) a → SafeAct sys side K I n (guardSends en a) := by
   intro a
@@ -178,7 +178,7 @@ theorem safe_of_guard (n : N) (en : S → Port → Bool) (hK : ∀ m r g, K m r 
       simp only [guardSends]
       split
       · rename_i hen
-        exact SafeAct.send hp (fun m r hwq => ⟨hw s q m r hp hen hwq, hK m r g⟩) (fun s' hs' => ih s' (hk s' hs'))
+        exact SafeAct.send hp (fun m r hwq => ⟨hw s q m r hp hen hwq, hK q m r g hwq⟩) (fun s' hs' => ih s' (hk s' hs'))
       · exact ih s (hk s hp)
 
 /-- A script without emissions. -/
